@@ -13,6 +13,7 @@
 package main
 
 import (
+	"bufio"
 	"flag"
 	"fmt"
 	"os"
@@ -53,6 +54,48 @@ func b(x bool) string {
 	return "f"
 }
 
+// sw is a streaming trace writer: a case line is written piece by piece, and the text of an
+// operation that recurses over the structure (verify, traversals, dumps) is flushed BEFORE the
+// operation runs.  If the Go runtime then dies with an unrecoverable fatal error (stack overflow
+// on a cyclic structure), the unfinished line on disk still names the history and the operation
+// that killed the process, so the failure can be shrunk and replayed.
+type sw struct {
+	w      *bufio.Writer
+	inOp   bool // " | op" written, result pending
+	inCase bool
+}
+
+func newSW() *sw { return &sw{w: bufio.NewWriterSize(os.Stdout, 1<<20)} }
+
+func (t *sw) Begin(format string, a ...any) {
+	fmt.Fprintf(t.w, format, a...)
+	t.inCase = true
+}
+func (t *sw) Start(op string, risky bool) {
+	t.w.WriteString(" | ")
+	t.w.WriteString(op)
+	t.inOp = true
+	if risky {
+		t.w.Flush()
+	}
+}
+func (t *sw) Finish(res string) {
+	t.w.WriteString(" -> ")
+	t.w.WriteString(res)
+	t.inOp = false
+}
+func (t *sw) Op(op, res string) { t.Start(op, false); t.Finish(res) }
+func (t *sw) End() {
+	t.w.WriteByte('\n')
+	t.inCase = false
+}
+func (t *sw) Flush() {
+	if t.inCase {
+		t.End()
+	}
+	t.w.Flush()
+}
+
 // ---- watchdog: one op at a time; if it does not finish within the deadline the trace is flushed
 // with the result HANG and the process exits.
 var (
@@ -63,12 +106,16 @@ var (
 	deadline = 1500 * time.Millisecond
 )
 
-func watchdog(w *tr.W) {
+func watchdog(w *sw) {
 	for {
 		time.Sleep(100 * time.Millisecond)
 		wmu.Lock()
 		if wActive && time.Since(wStart) > deadline {
-			w.Op(wOp, "HANG")
+			if w.inOp {
+				w.Finish("HANG")
+			} else {
+				w.Op(wOp, "HANG")
+			}
 			w.Flush()
 			os.Exit(0)
 		}
@@ -106,7 +153,7 @@ func newPool(impl, orient string, sizes []int) *pool {
 	return p
 }
 
-func exec(w *tr.W, p *pool, op string) {
+func exec(w *sw, p *pool, op string) {
 	f := strings.Fields(op)
 	a := func(i int) int { v, _ := strconv.Atoi(f[i]); return v }
 	i := a(0)
@@ -157,11 +204,14 @@ func exec(w *tr.W, p *pool, op string) {
 		w.Op(op, "skip")
 		return
 	}
+	// operations that recurse over the structure can die with a fatal stack overflow: flush first
+	risky := f[1] == "V" || f[1] == "CK" || f[1] == "CV" || f[1] == "DUMP"
+	w.Start(op, risky)
 	res, panicked := guarded(op, run)
 	if panicked {
 		p.live[i] = false
 	}
-	w.Op(op, res)
+	w.Finish(res)
 }
 
 func header(impl, orient string, sizes []int) string {
@@ -172,7 +222,7 @@ func header(impl, orient string, sizes []int) string {
 	return s
 }
 
-func runCase(w *tr.W, head string, ops []string) {
+func runCase(w *sw, head string, ops []string) {
 	h := strings.Fields(head)
 	if h[0] == "MAXDEG" {
 		w.Begin("MAXDEG")
@@ -212,7 +262,7 @@ func battery(i int, keys []int, vals []int) []string {
 // exhaustive: every history of exactly `length` steps over the alphabet, the full battery after every step.
 // One heap: Insert key 1 / key 2 (fresh values), Delete, DeleteAll.
 // Two heaps (mergeable): the same on both heaps plus Merge 0<-1 and 1<-0.
-func exhaustive(w *tr.W, impl, orient string, sizes []int, length int, withDeleteAll bool, keys int) {
+func exhaustive(w *sw, impl, orient string, sizes []int, length int, withDeleteAll bool, keys int) {
 	nh := len(sizes)
 	var alphabet []string
 	for i := 0; i < nh; i++ {
@@ -284,7 +334,7 @@ func clean(ops []string) []string {
 }
 
 // random: long structured histories on a pool of heaps.
-func random(w *tr.W, r *rng.R, cases, maxSteps int) {
+func random(w *sw, r *rng.R, cases, maxSteps int) {
 	for c := 0; c < cases; c++ {
 		nh := r.Range(1, 4)
 		if r.Chance(1, 5) {
@@ -430,7 +480,7 @@ func random(w *tr.W, r *rng.R, cases, maxSteps int) {
 
 // shapes: adversarial structures: merges of heaps of chosen sizes (carry chains, three trees of one
 // order), power-of-two fills, resize boundaries of the binary heap for every initial size.
-func shapes(w *tr.W, r *rng.R, thorough bool) {
+func shapes(w *sw, r *rng.R, thorough bool) {
 	maxN := 20
 	if thorough {
 		maxN = 70
@@ -551,7 +601,7 @@ func main() {
 	tier := flag.String("tier", "quick", "quick|thorough")
 	replay := flag.String("replay", "", "case file to re-execute")
 	flag.Parse()
-	w := tr.NewW()
+	w := newSW()
 	defer w.Flush()
 	if *replay != "" {
 		deadline = 300 * time.Millisecond // replayed cases are small; keeps shrinking of a hang fast
@@ -581,6 +631,9 @@ func main() {
 				exhaustive(w, impl, orient, []int{0}, l1-1, false, 3)
 				if impl != "BIN" {
 					exhaustive(w, impl, orient, []int{0, 0}, l2, false, 2)
+					// deeper, without DeleteAll: consolidation of forests with mixed degrees needs
+					// Deletes between the Inserts
+					exhaustive(w, impl, orient, []int{0}, l1+2, false, 2)
 				}
 			}
 			for size := 1; size <= 4; size++ {
